@@ -43,7 +43,7 @@ class Wrapper(object):
             module = __import__(modname, fromlist="dummy")
             # get the regular expression to match the header message
             regex = getattr(module, "HEADER_RX", None)
-            if regex and re.match(regex, header.decode()):
+            if regex and re.match(regex, header.decode(ENCODING)):
                 mapping = getattr(module, "get_mapping", None)
                 if callable(mapping):
                     return mapping()
